@@ -253,6 +253,19 @@ class Script:
         row.update({"ev": "freq", "file": self.nfile, "qid": self.nq, "q": q, "tag": tag, "reps": n})
         self.rows.append(row)
 
+    def rp(self, nets, clients, tag=""):
+        """nets: [(loc, cidr)], clients: [(addr text, prefix length in the address family)] - the real Rearranger's table for
+        this subnet set is judged against LPM for every client"""
+        self.nq += 1
+        an, cn = [], []
+        for lo, c in nets:
+            l = net(lo, c, 0)
+            an.append({"f": l["ipf"], "b": l["ipb"], "len": l["netlen"], "loc": lo})
+        for a, plen in clients:
+            e = ecs_of((a, plen))
+            cn.append({"f": e["f"], "b": e["b"], "len": e["len"]})
+        self.rows.append({"ev": "rp", "qid": self.nq, "tag": tag, "nets": an, "netsc": [{"cidr": c, "loc": lo} for lo, c in nets], "clients": cn})
+
     def loc(self, kind, qname, rip=None, ecs=None, tag=""):
         self.nq += 1
         if ecs:
